@@ -119,6 +119,10 @@ type VC struct {
 	litFuncs map[string]func(string) string // uninterpreted string functions evaluable on literals
 	litAxioms map[string]func(string) ([]string, []string) // per-literal axioms of other evaluable functions
 	seenObl  map[string]bool
+	pureFrame bool                // the root contract says "assigns \nothing"
+	fsAnchor bool                 // field sets mentioned now belong to a loop-head assumption
+	fsAnchors map[string][]int    // indices (into fsSeen) of loop-head mentions
+	fsSeen   map[string][][3]Term // field-set applications mentioned so far (row, heap, n)
 	binders  []string // quantifier variables in scope while a contract expression is evaluated
 }
 
@@ -154,7 +158,16 @@ func newVC(eng *Engine, name string, classes map[string]bool) *VC {
 	return vc
 }
 
-func (vc *VC) want(class string) bool { return vc.classes == nil || vc.classes[class] }
+func (vc *VC) want(class string) bool {
+	if class == "FRAME" && vc.pureFrame {
+		return true
+	}
+	return vc.classes == nil || vc.classes[class]
+}
+
+func isHeapComp(name string) bool {
+	return strings.HasPrefix(name, "H|") || strings.HasPrefix(name, "E|") || strings.HasPrefix(name, "C|") || strings.HasPrefix(name, "Md|") || strings.HasPrefix(name, "Mv|") || strings.HasPrefix(name, "Ms|")
+}
 
 func (vc *VC) fresh(hint string, s *Sort) Term {
 	vc.n++
@@ -550,6 +563,13 @@ func (vc *VC) registerLoc(l *Loc) {
 // function-entry version when the component is clean in st and base is known
 // to be an object that existed at entry (canonical terms across calls).
 func (vc *VC) at(st *State, name string, base Term) Term {
+	// a function whose contract says "assigns \nothing" never changes an object
+	// that existed at entry: every write is checked against the clause (FRAME
+	// obligations, forced on for such functions), so reads of pre-existing
+	// objects can use the entry version (assume-guarantee over execution steps)
+	if vc.pureFrame && vc.preRefs[base.S] && name != "Ty" && name != "Mine" && isHeapComp(name) {
+		return vc.get(&State{}, name)
+	}
 	if !st.dirty[name] && vc.preRefs[base.S] && name != "Ty" && name != "Mine" {
 		if _, written := st.heap[name]; written {
 			return vc.get(&State{}, name)
